@@ -36,7 +36,8 @@ PROPERTY = "C31"
 TECHNIQUE = "runtime monitoring; exact Poisson tail test + duplicate/correlation monitors + differential lazy-vs-eager with a per-block stream model, hook on NoiseTransform._calculate_new_array"
 RULE = ("measurement type (5), 0-3 ensemble axes (ordinal/scan/plain/frozen-phonon, sizes 1-5), base shapes 1-D 16-96 or 2-D 6-32 per "
         "side, signal = base pattern x member scale (members equal / scaled / unrelated), levels 1e-3..1e4 with zeros and negative "
-        "pixels, dose total or per-area, scalar or 2-3 doses, samples 1-4, seed None or int, chunkings: one block / per member / random "
+        "pixels, size-1 base axes, dose total or per-area, scalar (float/int/numpy scalar, 0) or 1-3 doses (0 allowed), samples 1-4 (int or "
+        "numpy int), seed None / random int / hostile (0, 1, 2**31-1, 2**32-1, 2**32, 2**63-1, 2**64+5) as python or numpy integer, chunkings: one block / per member / random "
         "per axis / base axes split, float32 or float64, threaded or synchronous scheduler; non-trivial = at least 2 members with "
         "identical lambda and sum(lambda) >= 100; distinct = distinct case signature")
 CLAUSES = ["counts-nonnegative-whole", "expectation", "seed-reproducible", "lazy-equals-eager", "independent-no-duplicates",
@@ -53,9 +54,11 @@ MTYPES = ["images", "dp", "polar", "rline", "kline"]
 def gen(rng, tier):
     mtype = str(rng.choice(MTYPES, p=[0.35, 0.25, 0.15, 0.15, 0.10]))
     if mtype in ("rline", "kline"):
-        base = [int(rng.choice([16, 33, 64, 96]))]
+        base = [int(rng.choice([16, 33, 64, 96, 1, 2]))]
     else:
         base = [int(rng.integers(6, 33)), int(rng.integers(6, 33))]
+        if rng.random() < 0.08:          # size-1 base axes
+            base[int(rng.integers(0, 2))] = 1
     form = "total"
     n_ens = int(rng.choice([0, 1, 1, 2, 2, 3]))
     ens = []
@@ -78,7 +81,17 @@ def gen(rng, tier):
     dose_scale = float(10 ** rng.uniform(-1, 3))
     if form == "area":
         dose_scale *= 10.0
+    ndose = int(rng.choice([ndose, ndose, ndose, 1]))          # a one-element dose sequence is a sequence too
     dose = dose_scale if ndose == 0 else [float(dose_scale * 10 ** rng.uniform(-0.7, 0.7)) for _ in range(ndose)]
+    scalar_as = str(rng.choice(["float", "float", "float", "int", "np.float32", "np.float64"]))
+    r = rng.random()
+    if r < 0.06:                          # dose 0: every count must be 0
+        if ndose == 0:
+            dose = 0.0
+        else:
+            dose[int(rng.integers(0, ndose))] = 0.0
+    if ndose == 0 and scalar_as == "int":
+        dose = float(max(0, round(dose)))
     shape = [e["n"] for e in ens] + base
     r = rng.random()
     if r < 0.2:
@@ -95,11 +108,35 @@ def gen(rng, tier):
         "mtype": mtype, "ens": ens, "base": base, "sampling": [float(rng.uniform(0.02, 0.5)), float(rng.uniform(0.02, 0.5))],
         "sig_seed": int(rng.integers(0, 2 ** 31)), "sig_mode": str(rng.choice(["equal", "equal", "scaled", "random"])),
         "level": level, "neg": bool(rng.random() < 0.25), "zeros": bool(rng.random() < 0.25),
-        "dose": {"form": form, "v": dose, "as": str(rng.choice(["list", "tuple", "ndarray"]))},
-        "samples": int(rng.choice([1, 1, 1, 2, 3, 4])), "seed": None if rng.random() < 0.3 else int(rng.integers(0, 2 ** 31)),
+        "dose": {"form": form, "v": dose, "as": str(rng.choice(["list", "tuple", "ndarray"])), "scalar_as": scalar_as},
+        "samples": int(rng.choice([1, 1, 1, 2, 3, 4])), "samples_as": str(rng.choice(["int", "int", "int", "np.int64"])),
+        "seed": _gen_seed(rng), "seed_as": str(rng.choice(["int"] * 11 + ["np.int64", "np.uint32", "np.int32"])),
         "chunks": chunks, "precision": str(rng.choice(["float32", "float32", "float64"])),
         "scheduler": str(rng.choice(["threads", "synchronous"])),
     }
+
+
+HOSTILE_SEEDS = [0, 0, 0, 1, 2 ** 31 - 1, 2 ** 31, 2 ** 32 - 1, 2 ** 32, 2 ** 63 - 1, 2 ** 64 + 5]
+
+
+def _gen_seed(rng):
+    r = rng.random()
+    if r < 0.25:
+        return None
+    if r < 0.55:
+        return int(HOSTILE_SEEDS[int(rng.integers(0, len(HOSTILE_SEEDS)))])
+    return int(rng.integers(0, 2 ** 31))
+
+
+def seed_arg(case):
+    """The seed object handed to abTEM: python int (default) or a numpy integer scalar of the requested type."""
+    v, t = case["seed"], case.get("seed_as", "int")
+    if v is None or t == "int":
+        return v
+    info = np.iinfo(getattr(np, t[3:]))
+    if not (info.min <= v <= info.max):
+        return v
+    return getattr(np, t[3:])(v)
 
 
 def fixed_cases(tier):
@@ -124,6 +161,22 @@ def fixed_cases(tier):
         case(mtype="kline", base=[96], ens=[{"kind": "ordinal", "n": 2, "sampling": 1.0}], chunks=[2, 96], seed=None, level=400.0,
              precision="float64", scheduler="synchronous"),
         case(neg=True, zeros=True, level=0.05, chunks=[4, 1, 24, 20], sig_mode="scaled"),
+        # hostile values: falsy / extreme seeds, dose 0, one-element dose sequence, size-1 axes, numpy scalars
+        case(seed=0, chunks=[4, 3, 24, 20]),                                  # seed 0 is a seed: reproducible, lazy == eager
+        case(seed=0),                                                         # seed 0, one block per member
+        case(seed=0, samples=2, chunks=[4, 3, 24, 20]),
+        case(seed=2 ** 32 - 1, chunks=[4, 3, 24, 20], ens=[{"kind": "plain", "n": 1, "sampling": 1.0},
+                                                            {"kind": "ordinal", "n": 3, "sampling": 1.0}]),
+        case(seed=2 ** 64 + 5, chunks=[2, 3, 24, 20], samples=3),
+        case(seed=5, seed_as="np.int64", chunks=[4, 3, 24, 20]),              # numpy integer seed: refused or honoured, never ignored
+        case(seed=0, seed_as="np.int64", chunks=[4, 3, 24, 20]),
+        case(dose={"form": "total", "v": 0.0, "as": "list", "scalar_as": "float"}, chunks=[2, 3, 24, 20]),
+        case(dose={"form": "total", "v": [0.0, 25.0], "as": "list"}, seed=0, chunks=[4, 3, 24, 20]),
+        case(dose={"form": "total", "v": [12.0], "as": "tuple"}, seed=1, chunks=[4, 3, 24, 20]),
+        case(dose={"form": "total", "v": 7.0, "as": "list", "scalar_as": "int"}, samples=2, samples_as="np.int64", seed=0,
+             chunks=[4, 3, 24, 20]),
+        case(base=[1, 20], chunks=[2, 3, 1, 20], seed=0, level=300.0),
+        case(mtype="rline", base=[1], ens=[{"kind": "ordinal", "n": 4, "sampling": 1.0}], chunks=[4, 1], seed=0, level=500.0),
     ]
 
 
@@ -194,6 +247,9 @@ def dose_arg(case):
             v = np.array(v)
         elif d["as"] == "tuple":
             v = tuple(v)
+    else:
+        t = d.get("scalar_as", "float")
+        v = int(v) if t == "int" else np.float32(v) if t == "np.float32" else np.float64(v) if t == "np.float64" else float(v)
     key = "total_dose" if d["form"] == "total" else "dose_per_area"
     return {key: v}
 
@@ -211,6 +267,8 @@ def expected_lambda(case, sig_cast):
     """float64 lambda with the output layout [doses][samples] + signal shape."""
     d = case["dose"]
     doses = np.atleast_1d(np.array(d["v"], dtype=np.float64))
+    if not isinstance(d["v"], list) and d.get("scalar_as") == "np.float32":
+        doses = doses.astype(np.float32).astype(np.float64)      # the caller's number already is a float32
     if d["form"] == "area":
         doses = doses * pixel_area(case)
     # the dose is handed over in the working precision
@@ -341,8 +399,12 @@ def check(ctx, case):
     n_ens = len(case["ens"])
     n_lead = lam.ndim - len(case["base"])
     n_new = n_lead - n_ens                      # axes added by the transform: [doses][samples]
-    kwargs = dict(dose_arg(case), samples=case["samples"], seed=case["seed"])
-    seeded = case["seed"] is not None
+    samples = np.int64(case["samples"]) if case.get("samples_as") == "np.int64" else case["samples"]
+    kwargs = dict(dose_arg(case), samples=samples, seed=seed_arg(case))
+    seeded = case["seed"] is not None            # 0 is a seed
+    numpy_seed = isinstance(kwargs["seed"], np.integer)
+    ctx.monitor("seed:%s" % ("none" if not seeded else "zero" if case["seed"] == 0 else "numpy" if numpy_seed else
+                             "huge" if case["seed"] >= 2 ** 32 else "int"))
     full_base = [tuple(slice(None) for _ in case["base"])]
     groups = member_groups(lam, n_lead)
     ctx.nontrivial(bool(groups) and float(lam.sum()) >= 100.0)
@@ -354,7 +416,15 @@ def check(ctx, case):
 
         # ---------------- eager
         m = make(case, sig.copy())
-        e1 = m.poisson_noise(**kwargs)
+        try:
+            e1 = m.poisson_noise(**kwargs)
+        except ValueError as e:
+            if numpy_seed and "seeds" in str(e):
+                # a clean refusal of a numpy integer as seed produces no measurement: nothing to judge (it must not be
+                # silently treated as "no seed" -- if it is accepted, every clause below applies with the seed as given)
+                ctx.note("numpy-integer-seed-refused")
+                return
+            raise
         e2 = m.poisson_noise(**kwargs)
         ctx.expect(type(e1) is type(m) and isinstance(e1.array, np.ndarray), "counts-nonnegative-whole", what="type",
                    got=type(e1).__name__)
